@@ -31,6 +31,7 @@ def world(kind, style='registry'):
         'configs': {'root': {'medium': 'json', 'tasks': ['U', 'T'], 'values': {}}},
         'root': 'root',
         'variants': {'v0': []},
+        '_shrinking': True,   # the value of a later attempt is shorter than that of an earlier one
     }
 
 
@@ -77,7 +78,7 @@ class Scenario:
             return 'ok'
         except fsops.Crash:
             return 'crash'
-        except worlds.Fault as e:
+        except (worlds.Fault, worlds.Interrupt) as e:
             return f'fault: {e}'
         except Exception as e:  # noqa
             return f'{type(e).__name__}: {e}'
@@ -205,15 +206,16 @@ def _opclass(ops, k):
     return f'{kind} {name}'
 
 
+# 'interrupt': run ends with a KeyboardInterrupt (a failing run that is not an `Exception`)
 FAULTS = {
-    'json': ['raise', 'raise_late', 'wrong_type', 'unserialisable'],
+    'json': ['raise', 'raise_late', 'wrong_type', 'unserialisable', 'interrupt'],
     'json_list': ['raise', 'wrong_type', 'unserialisable'],
-    'numpy': ['raise', 'wrong_type'], 'pandas': ['raise', 'wrong_type'], 'series': ['raise', 'wrong_type'],
+    'numpy': ['raise', 'wrong_type', 'interrupt'], 'pandas': ['raise', 'wrong_type'], 'series': ['raise', 'wrong_type'],
     'generator': ['raise', 'gen_raise_0', 'gen_raise_1', 'unserialisable'],
-    'generator_lazy': ['raise', 'gen_raise_0', 'gen_raise_1', 'unserialisable'],
+    'generator_lazy': ['raise', 'gen_raise_0', 'gen_raise_1', 'unserialisable', 'interrupt'],
     'list_of_numpy': ['raise', 'wrong_type', 'unserialisable'],
-    'dir': ['raise', 'raise_partial', 'wrong_type'],
-    'continues': ['raise', 'raise_partial', 'wrong_type'],
+    'dir': ['raise', 'raise_partial', 'wrong_type', 'interrupt'],
+    'continues': ['raise', 'raise_partial', 'wrong_type', 'interrupt'],
 }
 
 
@@ -234,7 +236,7 @@ def _fault_job(args):
             try:
                 _ = ch['t'].value
                 res.violations.append(Violation(f'fault {kind}: failing run did not raise', f'{label}: attempt {i} ({f}) returned a value', case))
-            except Exception as e:  # noqa
+            except (Exception, worlds.Interrupt) as e:  # noqa
                 pass
             # while failing: nothing visible (a forced recomputation may still show the OLD complete result)
             probe = sc.w.chain('v0', base_dir=sc.base)
@@ -304,7 +306,7 @@ def _upstream_fault_job(args):
             try:
                 _ = ch['t'].value
                 res.violations.append(Violation(f'fault upstream {kind}: request succeeded although its input failed', f'{label}: attempt {i}', case))
-            except Exception:  # noqa
+            except (Exception, worlds.Interrupt):  # noqa
                 pass
         try:
             p = sc.w.decode(ch['t'].value, kind)
